@@ -854,3 +854,38 @@ m('c08-division-result-scale-off-by-one', ['C08'], 'impl_division:scale-bookkeep
 m('c08-division-loop-remainder-not-shifted', ['C08'], 'impl_division:scale-bookkeeping', [
   ('src/lib.rs', "        remainder = r * 10;", "        remainder = r;")],
   'remainder not shifted inside the digit loop')
+# ---- C14 direction of infinity
+m('c14-to-f64-tiny-becomes-infinity', ['C14'], 'to_f64:infinity-only-on-overflow', [
+  ('src/impl_num.rs', """                if scale > 0 {
+                    // magnitude is far below the smallest subnormal: underflow to (signed) zero
+                    return Some(copy_sign_to_float(0.0));
+                }
+""", "")],
+  'the repaired defect re-introduced: 1e-3000000000 converts to infinity')
+# ---- C06 positions of with_scale_round
+m('c06-wsr-low-digit-index', ['C06'], 'with_scale_round:positions[round_pair[inside]]', [
+  ('src/lib.rs', "let low_digit = digits[scale_diff - 1];", "let low_digit = digits[scale_diff];")],
+  'the insignificant digit is read one place too high')
+m('c06-wsr-tail-includes-insig-digit', ['C06'], 'with_scale_round:positions[round_pair[inside]]', [
+  ('src/lib.rs', "digits[0..scale_diff-1].iter().all(Zero::is_zero)", "digits[0..scale_diff].iter().all(Zero::is_zero)")],
+  'the tail flag also looks at the insignificant digit: x.50 is no longer seen as a tie')
+m('c06-wsr-rebuild-from-wrong-index', ['C06'], 'with_scale_round:positions[rebuild[inside]]', [
+  ('src/lib.rs', "BigInt::from_radix_le(sign, &digits[scale_diff..], 10).unwrap()", "BigInt::from_radix_le(sign, &digits[scale_diff + 1..], 10).unwrap()")],
+  'result rebuilt one digit short')
+m('c06-wsr-regime-test-sign', ['C06'], 'with_scale_round:positions[regime-test]', [
+  ('src/lib.rs', "let rounded_int = match int_digit_count.cmp(&-new_scale) {", "let rounded_int = match int_digit_count.cmp(&new_scale) {")],
+  'regime chosen by comparing with +new_scale')
+# ---- C15 is_integer
+m('c15-is-integer-quotient', ['C15'], 'is_integer:table[scale>0]', [
+  ('src/lib.rs', "(self.int_val.clone() % ten_to_the(self.scale as u64)).is_zero()", "(self.int_val.clone() / ten_to_the(self.scale as u64)).is_zero()")],
+  'integer part tested instead of the fractional part')
+m('c15-is-integer-negative-scale-only', ['C15'], 'is_integer:table[', [
+  ('src/lib.rs', "        if self.scale <= 0 {\n            true\n        } else {\n            (self.int_val.clone()", "        if self.scale <= 0 {\n            self.scale < 0\n        } else {\n            (self.int_val.clone()")],
+  'scale 0 reported as non-integer')
+# ---- C07 with_prec bookkeeping
+m('c07-with-prec-scale-raised-when-dropping', ['C07'], 'with_prec:scale-bookkeeping', [
+  ('src/lib.rs', "                    scale: self.scale - diff as i64,", "                    scale: self.scale + diff as i64,")],
+  'digits dropped but the scale raised')
+m('c07-with-prec-padding-keeps-scale', ['C07'], 'with_prec:scale-bookkeeping', [
+  ('src/lib.rs', "                    int_val: &self.int_val * ten_to_the(diff),\n                    scale: self.scale + diff as i64,", "                    int_val: &self.int_val * ten_to_the(diff),\n                    scale: self.scale,")],
+  'zeros appended without raising the scale: value multiplied by 10^diff')
